@@ -159,12 +159,32 @@ partial def pSExpr : P SExpr
   | "RANGE" :: ts => do let (l, ts) ← pSExpr ts; let (h, ts) ← pSExpr ts; pure (.range l h, ts)
   | "DRANGE" :: ts => do let (l, ts) ← pSExpr ts; let (h, ts) ← pSExpr ts; pure (.drange l h, ts)
   | "MUX" :: ts => do let (k, ts) ← pNat ts; let (es, ts) ← pMany pSExpr k ts; pure (.mux es, ts)
+  | "HYP" :: ts => do let (k, ts) ← pNat ts; let (es, ts) ← pMany pSExpr k ts; pure (.hypot es, ts)
   | "MONO" :: f :: ts => do
     let f ← pFn f
     let (k, ts) ← pNat ts; let (es, ts) ← pMany pSExpr k ts
     pure (.mono f es, ts)
   | "TN" :: ts => do let (l, ts) ← pRat ts; let (h, ts) ← pRat ts; pure (.truncnormal l h, ts)
   | _ => none
+
+/-- integer square root (floor) by Newton's iteration -/
+def isqrt (n : Nat) : Nat := Id.run do
+  if n < 2 then return n
+  let mut x := 1 <<< (n.log2 / 2 + 1)
+  for _ in [0:200] do
+    let y := (x + n / x) / 2
+    if y ≥ x then break
+    x := y
+  return x
+
+/-- a rational approximation of `sqrt q` (absolute error < 1e-15 / den; exact on squares of rationals) -/
+def ratSqrt (q : Rat) : Rat :=
+  if q ≤ 0 then 0 else
+  let s : Nat := 1000000000000000
+  mkRat (isqrt (q.num.toNat * q.den * s * s)) (q.den * s)
+
+/-- the driver's instance of `math.hypot` (an approximation: values are compared with a tolerance) -/
+def hypApprox (xs : List Rat) : Rat := ratSqrt ((xs.map fun x => x * x).sum)
 
 def pIval : P Scenic.Support.Supp
   | a :: b :: ts =>
@@ -187,7 +207,7 @@ def handle : List String → String
       let (ivs, ts) ← pMany pIval n rest
       let (e, ts) ← pSExpr ts
       if !ts.isEmpty then none
-      pure (match Scenic.Support.support Scenic.Gen.supportFormulas (fun i => ivs.getD i (none, none)) e with
+      pure (match Scenic.Support.support Scenic.Gen.supportFormulas hypApprox (fun i => ivs.getD i (none, none)) e with
         | some (l, h) => s!"{showOptRat l} {showOptRat h}"
         | none => "exc")).getD "bad-op"
   | "wo" :: n :: rest => (do
@@ -203,7 +223,7 @@ def handle : List String → String
   | ["tables"] =>
     let es := T.simp.map fun e => s!"{dunderName e.op e.refl}:{e.const}"
     let vs := T.vecOps.map fun e => s!"{dunderName e.1 e.2.1}:{if e.2.2 then 1 else 0}"
-    s!"simp={",".intercalate es} vec={",".intercalate vs} pythonDispatch={if T.pythonDispatch then 1 else 0} vecSeq={if T.vecHandlerAcceptsSeq then 1 else 0} monotone={",".intercalate (Scenic.Gen.monotoneDeclared)}"
+    s!"simp={",".intercalate es} vec={",".intercalate vs} pythonDispatch={if T.pythonDispatch then 1 else 0} vecSeq={if T.vecHandlerAcceptsSeq then 1 else 0} vecWrap={if T.vecOpsWrapOperands then 1 else 0} monotone={",".intercalate (Scenic.Gen.monotoneDeclared)}"
   | _ => "bad-op"
 
 end Driver.C05
